@@ -4,7 +4,8 @@
    [upd x i t] = the point x with coordinate i replaced by t. *)
 From Coq Require Import Arith List Reals QArith Qcanon.
 From Coquelicot Require Import Coquelicot.
-From GPV Require Import Base.LinAlg Base.Exec Base.Expr Models.C05_kernels Proofs.C05_kernels.
+From GPV Require Import Base.LinAlg Base.Exec Base.Expr Models.C05_kernels Proofs.C05_kernels
+  Proofs.C05_hessian Proofs.C05_den Proofs.C05_newton.
 
 (* the quadratic-expansion distance of the code (center by the column means of x1, then
    |x|^2 + |y|^2 - 2 x.y) is sum_k (x_k - y_k)^2: every field, every d, n1, n2 *)
@@ -73,15 +74,110 @@ Proof. exact poly_grad_x. Qed.
 Print Assumptions c05_poly_grad_x_block.
 
 (* Matern52KernelGrad: the (d/dx_j, value) output is the partial derivative of the Matern-5/2 kernel
-   in x_j, every d and ARD lengthscale.  Partial: coincident points (r = 0, where sqrt is not
-   differentiable and the derivative is the limit 0) are excluded; the Hessian block and
-   RBFKernelGradGrad's second-derivative blocks are tested only. *)
-Theorem c05_matern52_grad_x_block_partial :
-  forall d (x y l : nat -> R) j a, (j < d)%nat -> l j <> 0%R -> (0 < @sqd TR d (upd x j a) y l)%R ->
+   in x_j, every d and ARD lengthscale, EVERY point: coincident points (r = 0, where sqrt is not
+   differentiable; the derivative exists and is 0 because k = 1 - O(r^2)) included *)
+Theorem c05_matern52_grad_x_block :
+  forall d (x y l : nat -> R) j a, (j < d)%nat -> l j <> 0%R ->
     is_derive (fun t => @k_matern TR 5 d (upd x j t) y l) a
               (@m52grad_entry TR d (upd x j a) y l (S j) 0).
-Proof. exact m52_grad_x. Qed.
-Print Assumptions c05_matern52_grad_x_block_partial.
+Proof. exact m52_grad_x_full. Qed.
+Print Assumptions c05_matern52_grad_x_block.
+
+(* the (value, d/dy_i) output is the partial derivative in y_i, every point *)
+Theorem c05_matern52_grad_y_block :
+  forall d (x y l : nat -> R) i b, (i < d)%nat -> l i <> 0%R ->
+    is_derive (fun t => @k_matern TR 5 d x (upd y i t) l) b
+              (@m52grad_entry TR d x (upd y i b) l 0 (S i)).
+Proof. exact m52_grad_y_full. Qed.
+Print Assumptions c05_matern52_grad_y_block.
+
+(* the Hessian block: output (d/dx_j, d/dy_i) is the partial derivative in y_i of output
+   (d/dx_j, value), for all i, j (equal or not), every point (coincident points included: there
+   the block is 5/(3 l_i^2) on the diagonal and 0 off it) *)
+Theorem c05_matern52_grad_hessian_block :
+  forall d (x y l : nat -> R) i j b, (i < d)%nat -> (j < d)%nat -> l i <> 0%R ->
+    is_derive (fun t => @m52grad_entry TR d x (upd y i t) l (S j) 0) b
+              (@m52grad_entry TR d x (upd y i b) l (S j) (S i)).
+Proof. exact m52_hess. Qed.
+Print Assumptions c05_matern52_grad_hessian_block.
+
+(* PolynomialKernelGrad: the (value, d/dy_i) output and the Hessian block (d/dx_j, d/dy_i) = d/dy_i of
+   the (d/dx_j, value) output, every d, every power p (p = 0, 1 included), all i, j *)
+Theorem c05_poly_grad_y_block :
+  forall (c : R) pw d (x y : nat -> R) i b, (i < d)%nat ->
+    is_derive (fun t => @k_poly TR c pw d x (upd y i t)) b
+              (@polygrad_entry TR c pw d x (upd y i b) 0 (S i)).
+Proof. exact poly_grad_y. Qed.
+Print Assumptions c05_poly_grad_y_block.
+Theorem c05_poly_grad_hessian_block :
+  forall (c : R) pw d (x y : nat -> R) i j b, (i < d)%nat -> (j < d)%nat ->
+    is_derive (fun t => @polygrad_entry TR c pw d x (upd y i t) (S j) 0) b
+              (@polygrad_entry TR c pw d x (upd y i b) (S j) (S i)).
+Proof. exact poly_hess. Qed.
+Print Assumptions c05_poly_grad_hessian_block.
+
+(* RBFKernelGrad / RBFKernelGradGrad, ALL blocks.  Output index 0 = value, S i = d/dx_i, S (d + i) =
+   d^2/dx_i^2 ([ord d c m] = derivative order that output index c puts on dimension m).
+   General step: if a' asks for one more derivative in x_i than a (same in the other dimensions), entry
+   (a', b) is the partial derivative in x_i of entry (a, b); likewise in y_j for the second index. *)
+Theorem c05_rbf_deriv_step_x :
+  forall d (x y l : nat -> R) i a a' b t0, (i < d)%nat -> l i <> 0%R ->
+    (forall m, (m < d)%nat -> ord d a' m = (ord d a m + if Nat.eqb m i then 1 else 0)%nat) ->
+    (ord d a i + ord d b i <= 3)%nat ->
+    is_derive (fun t => @rbf_deriv_entry TR d (upd x i t) y l a b) t0
+              (@rbf_deriv_entry TR d (upd x i t0) y l a' b).
+Proof. exact rbf_step_x. Qed.
+Print Assumptions c05_rbf_deriv_step_x.
+Theorem c05_rbf_deriv_step_y :
+  forall d (x y l : nat -> R) j a b b' t0, (j < d)%nat -> l j <> 0%R ->
+    (forall m, (m < d)%nat -> ord d b' m = (ord d b m + if Nat.eqb m j then 1 else 0)%nat) ->
+    (ord d a j + ord d b j <= 3)%nat ->
+    is_derive (fun t => @rbf_deriv_entry TR d x (upd y j t) l a b) t0
+              (@rbf_deriv_entry TR d x (upd y j t0) l a b').
+Proof. exact rbf_step_y. Qed.
+Print Assumptions c05_rbf_deriv_step_y.
+(* the four instances that generate every block: for EVERY other output index b (resp. a) - value,
+   first or second derivative, same dimension or not -
+     row block S i       = d/dx_i of row block 0,      row block S (d + i)    = d/dx_i of row block S i,
+     column block S j    = d/dy_j of column block 0,   column block S (d + j) = d/dy_j of column block S j.
+   So entry (a, b) is D^a_x D^b_y k for all 1 + 2d output indices, mixed fourth derivatives included. *)
+Theorem c05_rbf_gradgrad_x_first :
+  forall d (x y l : nat -> R) i b t0, (i < d)%nat -> l i <> 0%R ->
+    is_derive (fun t => @rbf_deriv_entry TR d (upd x i t) y l 0 b) t0
+              (@rbf_deriv_entry TR d (upd x i t0) y l (S i) b).
+Proof. exact rbf_x_first. Qed.
+Print Assumptions c05_rbf_gradgrad_x_first.
+Theorem c05_rbf_gradgrad_x_second :
+  forall d (x y l : nat -> R) i b t0, (i < d)%nat -> l i <> 0%R ->
+    is_derive (fun t => @rbf_deriv_entry TR d (upd x i t) y l (S i) b) t0
+              (@rbf_deriv_entry TR d (upd x i t0) y l (S (d + i)) b).
+Proof. exact rbf_x_second. Qed.
+Print Assumptions c05_rbf_gradgrad_x_second.
+Theorem c05_rbf_gradgrad_y_first :
+  forall d (x y l : nat -> R) j a t0, (j < d)%nat -> l j <> 0%R ->
+    is_derive (fun t => @rbf_deriv_entry TR d x (upd y j t) l a 0) t0
+              (@rbf_deriv_entry TR d x (upd y j t0) l a (S j)).
+Proof. exact rbf_y_first. Qed.
+Print Assumptions c05_rbf_gradgrad_y_first.
+Theorem c05_rbf_gradgrad_y_second :
+  forall d (x y l : nat -> R) j a t0, (j < d)%nat -> l j <> 0%R ->
+    is_derive (fun t => @rbf_deriv_entry TR d x (upd y j t) l a (S j)) t0
+              (@rbf_deriv_entry TR d x (upd y j t0) l a (S (d + j))).
+Proof. exact rbf_y_second. Qed.
+Print Assumptions c05_rbf_gradgrad_y_second.
+
+(* NewtonGirardAdditiveKernel: the recurrence the library runs (e_deg = 1/deg sum_k (-1)^(k-1) e_(deg-k) s_k
+   on the power sums s_k) computes the elementary symmetric polynomial the model's [eval (KNG ..)] uses
+   (the documented sum over all k-subsets of dimensions): every degree, every number of dimensions;
+   over the reals and for the executed expr terms *)
+Theorem c05_newton_girard_is_esp :
+  forall (k : nat) (zs : list R), @newton_girard TR k zs = @esp TR k zs.
+Proof. exact newton_girard_is_esp. Qed.
+Print Assumptions c05_newton_girard_is_esp.
+Theorem c05_den_newton_girard_is_esp :
+  forall (k : nat) (zs : list expr), den (@newton_girard TE k zs) = den (@esp TE k zs).
+Proof. exact den_newton_girard_is_esp. Qed.
+Print Assumptions c05_den_newton_girard_is_esp.
 
 (* what is executed is what is proved about: the expr term the model prints for an RBF /
    RBF-grad / RBF-grad-grad entry denotes the real-valued formula on the denoted inputs *)
@@ -91,6 +187,31 @@ Theorem c05_den_rbf_deriv_entry :
     = @rbf_deriv_entry TR d (fun m => den (x m)) (fun m => den (y m)) (fun m => den (l m)) a b.
 Proof. exact den_rbf_deriv_entry. Qed.
 Print Assumptions c05_den_rbf_deriv_entry.
+
+(* ... and so does EVERY kernel term of the model (all 22 constructors, nested to any depth, any
+   parameter offset): structural induction on the term *)
+Theorem c05_den_eval :
+  forall k o (x y : list expr),
+    den (@eval TE k o x y) = @eval TR k o (List.map den x) (List.map den y).
+Proof. exact den_eval. Qed.
+Print Assumptions c05_den_eval.
+Theorem c05_den_oeval :
+  forall k o (x y : list expr),
+    den (@oeval TE k o x y) = @oeval TR k o (List.map den x) (List.map den y).
+Proof. exact den_oeval. Qed.
+Print Assumptions c05_den_oeval.
+Theorem c05_den_m52grad_entry :
+  forall d (x y l : nat -> expr) a b,
+    den (@m52grad_entry TE d x y l a b)
+    = @m52grad_entry TR d (fun m => den (x m)) (fun m => den (y m)) (fun m => den (l m)) a b.
+Proof. exact den_m52grad_entry. Qed.
+Print Assumptions c05_den_m52grad_entry.
+Theorem c05_den_polygrad_entry :
+  forall c pw d (x y : nat -> expr) a b,
+    den (@polygrad_entry TE c pw d x y a b)
+    = @polygrad_entry TR (den c) pw d (fun m => den (x m)) (fun m => den (y m)) a b.
+Proof. exact den_polygrad_entry. Qed.
+Print Assumptions c05_den_polygrad_entry.
 
 (* sums, products and scalings of kernels evaluate to the sums, products and scalings of the
    parts (constant folding included) *)
@@ -161,3 +282,13 @@ Example ex_c05_mul_of_add :
   den (@oeval TE (op_mul (OLeaf (KConst (Q2Qc 2))) (op_add (OLeaf (KConst (Q2Qc 3))) (OLeaf (KConst (Q2Qc 5))))) 0 nil nil)
   = Q2R' (Q2Qc 16).
 Proof. exact ex_mul_of_add. Qed.
+
+(* non-vacuity: a coincident point (x = y) in dimension 2, where the Matern theorems now apply *)
+Example ex_c05_m52_coincident :
+  @sqd TR 2 (upd (fun _ => 1%R) 0 1%R) (fun _ => 1%R) (fun _ => 2%R) = 0%R.
+Proof. exact ex_m52_coincident. Qed.
+
+(* non-vacuity: e_2(1, 2, 3) = 1*2 + 1*3 + 2*3 through the Newton-Girard recurrence *)
+Example ex_c05_newton_girard :
+  @newton_girard TR 2 (1%R :: 2%R :: 3%R :: nil) = 11%R.
+Proof. exact ex_newton_girard_3. Qed.
